@@ -364,6 +364,8 @@ class Expander:
         """May calling ``self.<method>()`` from ``func`` rebind ``self.<attr>``?"""
         if func.cls is None:
             return True
+        if self.repo.find_method(func.cls, method) is None and not any(method in sc.methods for sc in self.repo.subclasses(func.cls.qualname)):
+            return False  # a stored callable (field), not a method: it has no access to self
         ws = self._writes(func.cls.qualname, method, set())
         return ws is None or attr in ws
 
